@@ -16,6 +16,9 @@ from symx.report import Check, q, cex, note
 from props.volt_common import Q, DS, volt_patches, sym_stream, cparts
 
 
+core.INT64_WRAP[0] = True     # "huge ... NaN-free extremes" are in scope: model the int64 cast of out-of-range floats
+
+
 def clip_rne_term(y, bits):
     lo, hi = -2 ** (bits - 1), 2 ** (bits - 1) - 1
     r = lift(core.rne(Sym(y)))
